@@ -33,6 +33,9 @@ def resp_case(ctx, R, LP, rng, n):
     if py[0] != "ok":
         ctx.violation("resp:raises", "ComputeQSPResponse raised on valid arguments: %s" % str(py[1])[:100], replay)
         return
+    vals_ = np.array(py[1]).copy()
+    core.poison(py[1])                # the caller owns the returned array
+    py = (py[0], vals_)
     bits = 70
     for a, v in zip(avals, py[1]):
         mo = d.ask("resp %s %s %d %s %s" % (so, meas or "-", bits, rs(F(a)), rl(F(x) for x in ph)))
